@@ -1,7 +1,7 @@
 ------------------------------- MODULE MC_Rpc -------------------------------
 EXTENDS Rpc, Json, IOUtils
 CONSTANTS Users, Passwords, MaxLives, MsgCounts, Maxes, CancelAts, Methods, Mode
-Lives == UNION {[1..n -> [msgs : MsgCounts, end : {"err", "eof"}]] : n \in 1..MaxLives}
+Lives == UNION {[1..n -> [msgs : MsgCounts, end : {"err", "eof", "srvcancel"}]] : n \in 1..MaxLives}
 AuthInputs == [srvU : Users, srvP : Passwords, cliU : Users, cliP : Passwords]
 RetryInputs == [method : Methods, lives : Lives, max : Maxes, cancelAt : CancelAts]
 PwDef == {"", "pw", "Pw", "p w!"}
